@@ -11,7 +11,7 @@ VARIABLES s, op, phase
 vars == <<s, op, phase>>
 
 Elems == IF Elem = "int" THEN {1, 2, 3}
-         ELSE {IInt(1), IId("a"), IList(<<IInt(1), IList(<<IId("a")>>)>>)}
+         ELSE {IInt(1), IId("NOOP"), IIns("NOOP"), IList(<<IInt(1), IList(<<IId("NOOP")>>)>>)}   \* two items that print alike
 SeqsUpTo(S, d) == UNION {[1..k -> S] : k \in 0..d}
 Pos(st) == 0..(Len(st) + 2)
 Ops(st) ==
